@@ -68,6 +68,24 @@ CHECKS['C14'] = dict(check='c14', engine='E4-simfs-fault-enumeration', category=
                           'un-flushed data is lost at a crash, a torn flush leaves a seeded prefix; histories are sampled, boundaries of '
                           'long YAML dumps are sampled down to max_boundaries in the quick tier')
 
+E2_NOTE = ('trusted base: the reference unroller / snapshot in checks/e2.py encode the statement; crash+restart is modelled as '
+           'dropping every object and loading the instance directory again; the harness plays the controller\'s part of an '
+           'iteration (working directories, task output files); sampled histories, k up to 25')
+CHECKS['C05'] = dict(check='c05', engine='E2-history-restart-sim', category='exploration', design='§3 C05',
+                     technique='deterministic simulation of iteration histories with crash+reload faults, graph/placeholders/state/resolve() vs independent reference unroller',
+                     text='generated DoWhile packages driven through k (up to 25, always crossing 10 in a share of runs) real '
+                          'instantiate_dowhile_next_iteration calls with seeded crash+reload points; after every step node set, '
+                          'predecessors of every loop instance, placeholder represents/latest, loop state and resolve() of :ref, '
+                          ':output, :loopref, :loopoutput references from outside the loop equal the reference unroller.',
+                     note=E2_NOTE)
+CHECKS['C07'] = dict(check='c07', engine='E2-history-restart-sim', category='exploration', design='§3 C07',
+                     technique='deterministic simulation of store/reload histories (restart with only durable state), before/after equality + load-store fixpoint',
+                     text='loop packages (reload between iterations) and plain packages (platforms, user variable files, replication) '
+                          'are created, iterated, dropped and reloaded from their own instance files for 1-4 cycles; component set, '
+                          'resolved configurations, data references, edges, variables, platform, loop state and placeholders must be '
+                          'equal and the parsed stored description must be a fixpoint.',
+                     note=E2_NOTE)
+
 NOT_APPLICABLE = {
     'C03': 'pure rewrite of a component list (FlowIR.apply_replicate): no schedule, clock, fault or history to simulate',
     'C04': 'pure fold of configuration layers plus substitution; no state between calls (state across calls is C08)',
@@ -81,7 +99,7 @@ NOT_APPLICABLE = {
     'C19': 'dump/load round trip on documents; pure',
     'C20': 'arithmetic on a list of stage weights at load time',
 }
-PENDING = {k: 'claimed in DESIGN.md; its check is still under construction in this round' for k in ('C05', 'C07')}
+PENDING = {}
 
 
 def main():
